@@ -593,6 +593,34 @@ func catalogue() []variant {
 	add(hdr("tx_can_start", "payer_cannot_prepay", rej, crafted(func(c *mctx) (txOpt, bool) {
 		return txOpt{ref: c.num - 1, exp: 10, origin: c.w.poorKey()}, true
 	})))
+	// ---- wrap-around values -----------------------------------------------------------------------------------------
+	// The rules are stated over unbounded naturals; the code computes in uint64. Distances of 2^k (k = 32..63; the
+	// exponent rotates with the base block so that the thorough tier sees all of them), multiples of 2^54 (x*1024
+	// wraps), 2^61 (x*8) and values beyond 2^64 for the big-integer field must all be rejected.
+	kOf := func(c *mctx, salt uint32) uint { return uint(32 + (c.num*7+uint32(len(c.w.prof.name))+salt)%32) }
+	glPlus := func(d func(c *mctx) uint64) func(c *mctx, m *mut) bool {
+		return func(c *mctx, m *mut) bool { m.f.GL = pgl(c) + d(c); m.reexec = true; return true }
+	}
+	add(hdr("gas_limit_step", "plus_2p54", rej, glPlus(func(c *mctx) uint64 { return 1 << 54 })))
+	add(hdr("gas_limit_step", "plus_2p54_and_step", rej, glPlus(func(c *mctx) uint64 { return 1<<54 + step(c) })))
+	add(hdr("gas_limit_step", "plus_3x2p54", rej, glPlus(func(c *mctx) uint64 { return 3 << 54 })))
+	add(hdr("gas_limit_step", "plus_1023x2p54", rej, glPlus(func(c *mctx) uint64 { return 1023 << 54 })))
+	add(hdr("gas_limit_step", "plus_2pk", rej, glPlus(func(c *mctx) uint64 { return 1 << kOf(c, 0) })))
+	add(hdr("gas_used_le_limit", "limit_plus_2pk", rej, func(c *mctx, m *mut) bool { m.f.GU = m.f.GL + 1<<kOf(c, 1); return true }))
+	add(hdr("score_expected", "plus_2pk", rej, func(c *mctx, m *mut) bool { m.f.Score += 1 << kOf(c, 2); m.reexec = true; return true }))
+	add(hdr("score_expected", "plus_2p63", rej, func(c *mctx, m *mut) bool { m.f.Score += 1 << 63; m.reexec = true; return true }))
+	add(hdr("interval_aligned", "plus_2pk", rej, func(c *mctx, m *mut) bool { m.f.TS += 1 << kOf(c, 3); return true }))
+	add(hdr("base_fee_value", "plus_2pk", rej, func(c *mctx, m *mut) bool {
+		if !c.w.galacticaAt(c.num) {
+			return false
+		}
+		m.f.BaseFee.Add(m.f.BaseFee, new(big.Int).Lsh(big.NewInt(1), kOf(c, 4)))
+		m.reexec = true
+		return true
+	}))
+	add(hdr("base_fee_value", "plus_2p61", rej, postG(func(m *mut) bool { m.f.BaseFee.Add(m.f.BaseFee, new(big.Int).Lsh(big.NewInt(1), 61)); return true })))
+	add(hdr("base_fee_value", "plus_2p64", rej, postG(func(m *mut) bool { m.f.BaseFee.Add(m.f.BaseFee, new(big.Int).Lsh(big.NewInt(1), 64)); return true })))
+
 	// ---- chain-history dependent shapes --------------------------------------------------------------------------
 	// replay of a tx whose block ref equals the height that first included it (the lower edge of its window)
 	replayEdge := func(back uint32) func(c *mctx, m *mut) bool {
